@@ -255,6 +255,9 @@ func c04Leaves() []c04Leaf {
 var c04Payloads = []string{
 	";zqx", "{zqx", "}zqx", "\"zqx", "'zqx", "zqx\\", "\nzqx", "#zqx", " #zqx", "$zqx", "${zqx}", "; zqx on;", "\"; zqx on; #", "' zqx", "\\\"zqx",
 	"}\nzqx{", " zqx", "\tzqx",
+	// a backslash does not stop NGINX from reading a variable; percent-encoded forms of the breaking characters (they must
+	// stay encoded)
+	"\\$zqx", "\\${zqx}", "%3B%20zqx%20on%3B", "%22%3B%20zqx%20on%3B%20%23", "%0Azqx%7B", "%24zqx",
 }
 
 // c04Run runs the real pipeline and returns the .conf files, whether the marker is in other generated
@@ -416,9 +419,9 @@ func TestVerifC04(t *testing.T) {
 			for _, sur := range relevant(l.name) {
 				jobs = append(jobs, job{l, "; zqx on;", sur}, job{l, "\"; zqx on; #", sur})
 			}
-			for k := 0; k < 2; k++ {
-				jobs = append(jobs, job{l, c04Payloads[rng.Intn(len(c04Payloads))], "valid"})
-			}
+			// ... a variable behind a backslash and a percent-encoded breaker in valid surroundings, and one seeded payload
+			jobs = append(jobs, job{l, "\\$zqx", "valid"}, job{l, "%22%3B%20zqx%20on%3B%20%23", "valid"})
+			jobs = append(jobs, job{l, c04Payloads[rng.Intn(len(c04Payloads))], "valid"})
 		}
 	}
 	baseline := map[string][3]any{}
